@@ -239,6 +239,12 @@ package receiver
 //@ spec func fePRdev(r: int, fl: int, p0: int, uid: bool, gid: bool): int = fePGid(r, fl, p0, uid) + ite(gid && !flSameGid(fl), 4, 0)
 //@ func (*receiver.Transfer).receiveFileEntry
 //@   modifies rsyncwire.CountingReader.BytesRead, ghost.rpos
+//@   at[C15] (*rsyncwire.Conn).ReadInt64: assert [at-length-field] select(ghost.rpos, data(rt.Conn.Reader)) == fePLen(data(rt.Conn.Reader), flags, old(select(ghost.rpos, data(rt.Conn.Reader))))
+//@   at[C15] (*rsyncwire.Conn).ReadInt32@2: assert [at-mtime-field] select(ghost.rpos, data(rt.Conn.Reader)) == fePTime(data(rt.Conn.Reader), flags, old(select(ghost.rpos, data(rt.Conn.Reader))))
+//@   at[C15] (*rsyncwire.Conn).ReadInt32@3: assert [at-mode-field] select(ghost.rpos, data(rt.Conn.Reader)) == fePMode(data(rt.Conn.Reader), flags, old(select(ghost.rpos, data(rt.Conn.Reader))))
+//@   at[C15] (*rsyncwire.Conn).ReadInt32@4: assert [at-uid-field] select(ghost.rpos, data(rt.Conn.Reader)) == fePUid(data(rt.Conn.Reader), flags, old(select(ghost.rpos, data(rt.Conn.Reader)))) && f.Mode == feMode(data(rt.Conn.Reader), flags, old(select(ghost.rpos, data(rt.Conn.Reader))), old(last.Mode))
+//@   at[C15] (*rsyncwire.Conn).ReadInt32@5: assert [at-gid-field] select(ghost.rpos, data(rt.Conn.Reader)) == fePGid(data(rt.Conn.Reader), flags, old(select(ghost.rpos, data(rt.Conn.Reader))), rt.Opts.PreserveUid) && f.Mode == feMode(data(rt.Conn.Reader), flags, old(select(ghost.rpos, data(rt.Conn.Reader))), old(last.Mode))
+//@   at[C15] (*rsyncwire.Conn).ReadInt32@6: assert [at-rdev-field] select(ghost.rpos, data(rt.Conn.Reader)) == fePRdev(data(rt.Conn.Reader), flags, old(select(ghost.rpos, data(rt.Conn.Reader))), rt.Opts.PreserveUid, rt.Opts.PreserveGid) && f.Mode == feMode(data(rt.Conn.Reader), flags, old(select(ghost.rpos, data(rt.Conn.Reader))), old(last.Mode))
 //@   ensures[C15] [length-field] err == nil ==> result.Length == i64At(data(rt.Conn.Reader), fePLen(data(rt.Conn.Reader), flags, old(select(ghost.rpos, data(rt.Conn.Reader)))))
 //@   ensures[C15] [mode-field] err == nil ==> result.Mode == feMode(data(rt.Conn.Reader), flags, old(select(ghost.rpos, data(rt.Conn.Reader))), old(last.Mode))
 //@   ensures[C15] [uid-field] err == nil && rt.Opts.PreserveUid ==> result.Uid == ite(flSameUid(flags), old(last.Uid), i32At(data(rt.Conn.Reader), fePUid(data(rt.Conn.Reader), flags, old(select(ghost.rpos, data(rt.Conn.Reader))))))
